@@ -78,20 +78,49 @@ def _mpfr_eval(
     return mpfr_call(gmp_fn, gmp_args, prec=prec, n=n)
 
 
+def _irrational(expr: Callable[[], gmp.mpfr]) -> Callable[[], gmp.mpfr]:
+    """
+    Wraps `expr`, an expression for an irrational constant that composes
+    several MPFR operations, so that it behaves like a single MPFR operation:
+    under the active gmpy2 context (precision `p`, round towards zero),
+    the result is the constant truncated to `p` digits and is flagged inexact.
+
+    Each operation in `expr` rounds, so evaluating it with `p` digits
+    may be off by a few ulps and `rc` only describes the last operation.
+    Instead, evaluate with guard digits (Ziv's strategy) until
+    truncating to `p` digits is unambiguous.
+    """
+    def fn():
+        ctx = gmp.get_context()
+        guard = 32
+        while True:
+            wide = ctx.precision + guard
+            with gmp.context(ctx, precision=wide):
+                y = expr()
+                # `expr` has at most 3 operations, each off by less than 1 ulp
+                err = gmp.mul_2exp(abs(y), 5 - wide)
+                lo, hi = y - err, y + err
+            # re-round to `p` digits (towards zero)
+            rlo, rhi = +lo, +hi
+            if rlo == rhi and rlo.rc != 0:
+                return rlo
+            guard *= 2
+    return fn
+
+
 # From `titanfp` package
-# TODO: some of these are unsafe
 _constant_exprs: dict[_Constant, Callable[[], gmp.mpfr]] = {
     _Constant.E : lambda : gmp.exp(1),
-    _Constant.LOG2E : lambda: gmp.log2(gmp.exp(1)), # TODO: may be inaccurate
-    _Constant.LOG10E : lambda: gmp.log10(gmp.exp(1)), # TODO: may be inaccurate
+    _Constant.LOG2E : _irrational(lambda: gmp.log2(gmp.exp(1))),
+    _Constant.LOG10E : _irrational(lambda: gmp.log10(gmp.exp(1))),
     _Constant.LN2 : gmp.const_log2,
     _Constant.LN10 : lambda: gmp.log(10),
     _Constant.PI : gmp.const_pi,
-    _Constant.PI_2 : lambda: gmp.const_pi() / 2, # division by 2 is exact
-    _Constant.PI_4 : lambda: gmp.const_pi() / 4, # division by 4 is exact
-    _Constant.M_1_PI : lambda: 1 / gmp.const_pi(), # TODO: may be inaccurate
-    _Constant.M_2_PI : lambda: 2 / gmp.const_pi(), # TODO: may be inaccurate
-    _Constant.M_2_SQRTPI : lambda: 2 / gmp.sqrt(gmp.const_pi()), # TODO: may be inaccurate
+    _Constant.PI_2 : _irrational(lambda: gmp.const_pi() / 2),
+    _Constant.PI_4 : _irrational(lambda: gmp.const_pi() / 4),
+    _Constant.M_1_PI : _irrational(lambda: 1 / gmp.const_pi()),
+    _Constant.M_2_PI : _irrational(lambda: 2 / gmp.const_pi()),
+    _Constant.M_2_SQRTPI : _irrational(lambda: 2 / gmp.sqrt(gmp.const_pi())),
     _Constant.SQRT2: lambda: gmp.sqrt(2),
     _Constant.SQRT1_2: lambda: gmp.sqrt(gmp.div(gmp.mpfr(1), gmp.mpfr(2))),
 }
